@@ -34,3 +34,89 @@ CHECKS.update({
         'note': 'filter(iterable) is judged item by item as match(item) judges it; trusts vf/ref/css.py.',
     },
 })
+
+ENGINES[:] = [
+    {'name': 'E1 small-scope differential exploration', 'path': 'vf/engine/shard.py',
+     'serves_properties': ['C01', 'C02', 'C03', 'C05', 'C06', 'C08', 'C09', 'C10', 'C11', 'C12', 'C13', 'C17', 'C18', 'C19', 'C20'],
+     'kind_free_text': 'bounded-exhaustive enumeration of (tree, selector, argument) tuples executed on the real code, each checked against an independent reference model (vf/ref) or a relational oracle; sharded over 16 processes with a per-case watchdog'},
+    {'name': 'E2 explicit-state search over call histories', 'path': 'vf/engine/lts.py', 'serves_properties': ['C04', 'C15'],
+     'kind_free_text': 'breadth-first search whose transitions call the real method (CSSMatch.match, compile, purge); states are histories replayed on fresh real objects and deduplicated by a canonical digest; every transition is checked'},
+    {'name': 'E3 stateless schedule exploration', 'path': 'vf/engine/sched.py', 'serves_properties': ['C14'],
+     'kind_free_text': 'real threads under sys.settrace with a semaphore baton; every source line (optionally opcode) of the library is a scheduling point; depth-first over choice sequences with iterative preemption bounding; schedules replay deterministically'},
+    {'name': 'E4 program enumeration in fresh interpreters', 'path': 'vf/engine/procs.py', 'serves_properties': ['C16'],
+     'kind_free_text': 'all import-statement sequences up to a length, each a new process with an empty cwd, followed by a fixed probe'},
+    {'name': 'E5 pump-family enumeration', 'path': 'vf/props/c07.py', 'serves_properties': ['C07'],
+     'kind_free_text': 'all (prefix, pump, suffix) families over a fragment alphabet driven through every live regex (inventory by object-graph walk), compile() and attribute matching, CPU-time classified on a doubling ladder'},
+]
+
+
+def _c(engine, level, ref, technique, text, note):
+    return {'engine': engine, 'level': level, 'design_ref': ref, 'technique': technique, 'text': text, 'note': note}
+
+
+CHECKS.update({
+    'C04': _c('E2', 'model_checking', 'DESIGN.md §3 C04',
+              'explicit-state BFS over match() histories on one live CSSMatch object (state = digest of its memo tables and module-level containers), every transition compared with a fresh matcher on a pristine copy and with a tree fingerprint; plus exhaustive public-API call sequences',
+              'All histories of match(el) calls (every element, any order, repetition) on one live matcher until no new state digest appears (depth cap 6/10), for 13 documents built around each memo table (meta pragma, lang chains, twin forms, radio groups, iframes, class strings, ranges, parentless subtrees, dir=auto) x 24 (thorough 49) selectors; on each transition: history-free answer, namespace map / iframe flag restored, document fingerprint unchanged. API layer: every sequence of <=2 (thorough 3) calls of select/match/filter/closest against first-call answers on pristine copies.',
+              'digest covers vars(matcher) and mutable module/class containers of css_match; documents are API-built; quantifier over documents and selectors is by enumeration of the listed ones.'),
+    'C05': _c('E1', 'exploration', 'DESIGN.md §3 C05',
+              'bounded-exhaustive enumeration of ordered selector pairs x namespace maps x documents on the real select(), checked against Boolean-algebra laws between its own answers',
+              'Every ordered pair of a 125-selector pool that covers every pseudo-class name in the parser tables (names missing from the pool are added from the tables at run time) x {no map, prefix map, map with default namespace} x five rich documents as html.parser/lxml/html5lib/XHTML/XML: union, :is union, :is = list, :not complement, :not list complement, :where/:matches = :is, compound intersection, monotonicity, document order, and the namespace-neutral forms of the laws. Quick takes the pairs with an HTML-only/state/namespaced/custom member; thorough all pairs.',
+              'relational oracle only (what each selector should select is C01/C17); universe = what * selects under the same map.'),
+    'C06': _c('E1', 'exploration', 'DESIGN.md §3 C06',
+              'bounded-exhaustive enumeration of lexeme words and custom-selector maps on the real compile(), outcome-class oracle',
+              'All words of <=3 (thorough 4) lexemes over a 76-lexeme alphabet (every operator, bracket, quote, escape form incl. NUL/out-of-range/surrogate/EOF, line breaks, function openers, at-rule/pseudo-element starts, comments, custom names, a 4301-digit number, non-ASCII characters that re.I folds onto ASCII), words of <=4 (6) over a 16-lexeme core and <=5 (6) over an attribute/flag core; all custom maps of <=2 entries over 12 keys x 16 values x 10 using patterns. Only SoupSieve / SelectorSyntaxError / NotImplementedError (with @ or ::) / KeyError (two names equal after unescape+lower) may come out.',
+              'nesting depth far below the recursion budget; warnings ignored.'),
+    'C07': _c('E5', 'exploration', 'DESIGN.md §3 C07',
+              'exhaustive enumeration of pumped string families over every live regex, compile() and attribute matching, with CPU-time growth classification on a doubling ladder',
+              'Every (prefix, pump, suffix) triple over a 51-fragment alphabet (quick: pump of one fragment, reduced prefix/suffix menus; thorough: pumps of two fragments) driven through each of the ~45 regex objects found by walking the modules and tokenizer (match; finditer where the source scans), through compile(), and on the document side through the value patterns of all 7 attribute operators and match(). Flagged: any input <=64 chars over 1 s; any family whose time ratio on doubling exceeds 64 above 50 ms or that hits the 2 s cap right after a fast rung.',
+              'timing is the observable (thresholds leave 2-3 orders of magnitude each side, flagged families are re-measured); all lengths approximated by n<=256 repetitions.'),
+    'C08': _c('E1', 'exploration', 'DESIGN.md §3 C08',
+              'bounded-exhaustive enumeration of focus elements x attribute-content menus x contexts x selectors x entry points on the real API, no-exception / return-type oracle with watchdog',
+              'Every pseudo-class name from the parser tables (functional ones in several argument shapes), every attribute operator, class, id - alone, under :not(), after > and before + - against ~3000 (thorough ~25000) focus elements (type x min/max/value pairs and triples, dir x text, lang, name/checked/disabled/required, placeholder/value/content) surrounded by fixed companions, in 7 contexts (form/fieldset, legend, several top-level nodes, parentless, iframe, XML, XHTML with foreign/unknown namespaces), element-less documents, odd API values (None, numbers, bytes, nested lists) on attribute/class/id selectors, non-Tag targets (TypeError exactly then). All six entry points.',
+              'documents API-built; one open known finding (digit runs beyond the int() limit) is reported as KNOWN-FINDING.'),
+    'C09': _c('E1', 'exploration', 'DESIGN.md §3 C09',
+              'exhaustive enumeration of lexical respellings (single sites, all pairs, small triples) of AST-generated base selectors on the real compile(), IR-equality and same-selection oracle',
+              '170 base selectors (every attribute operator/flag, namespaces, An+B incl. of S, :lang/:dir/contains lists, combinators, nested :not/:is/:where/:matches/:has) rendered into rewrite sites: whitespace/comment gaps of 7 kinds, identifier escapes (hex, six-digit, backslash, escaped upper case), string quoting/escapes/escaped newline, keyword case. Every single-site rewrite, every two-site combination (quick: bases with <=14 sites), every three-site combination for small bases (thorough).',
+              'comments only where CSS allows one without changing tokens; equality is the library\'s own __eq__ (its laws are C15) plus selections on a 4-document corpus.'),
+    'C11': _c('E1', 'exploration', 'DESIGN.md §3 C11',
+              'exhaustive enumeration of ASCII case variants of every name/value x document materialisations, against the reference case rules',
+              'Complete in quick: every case variant of every tag/attribute name/value/class/id in the selector grammar x 7 operators x {none,i,s} against one logical tree as html.parser/lxml/html5lib (lower- and mixed-case source), API-built mixed-case HTML and XML, XHTML and XML; every HTML-only pseudo-class on three kinds of XML-but-not-XHTML documents (incl. XHTML-namespaced elements under a foreign root) with HTML/XHTML positive controls.',
+              'ASCII letters only; class/id compare case-sensitively everywhere (no quirks mode).'),
+    'C12': _c('E1', 'exploration', 'DESIGN.md §3 C12',
+              'exhaustive enumeration of namespace assignments x caller maps x selector forms, against a URI-comparison reference',
+              '594 XML documents (every pair of element namespace assignments {none, default, prefix p, prefix q, p redeclared} x every subset of attributes {k, p:k, q:k} x root default; API-built trees binding prefixes and URIs freely incl. two same-named attributes in different namespaces) x 7 caller maps (incl. colliding and empty-URI ones) x 160 selector forms (E, *|E, |E, x|E, y|E, wildcards, [k] forms, implied universal, inside :not/:is, with HTML-only pseudo-classes, chains); html5lib and XHTML documents with inline SVG/MathML/xlink.',
+              'attributes stored by bs4 with a namespace but no prefix are not asserted for [k]/[|k]; html.parser/lxml HTML out of scope.'),
+    'C13': _c('E1', 'exploration', 'DESIGN.md §3 C13',
+              'exhaustive enumeration of (range, tag) pairs on the live filter and of language-determination documents, against an RFC 4647 reference and an inheritance reference',
+              'All ranges x all tags of <=3 (thorough 4) subtags over alphabets realising every class the algorithm distinguishes (equal/different, *, singleton, case) plus empty range/tag on extended_language_filter; a sub-square and range lists end to end through :lang(); ~1000 (thorough ~8000) determination documents: lang in {absent, "", en, de-DE} at every level of a depth-3/4 chain x meta pragma x 6 builders x iframe at each depth, plus foreign-namespace crossings.',
+              'XHTML meta pragma, odd pragma values and xml:lang on XHTML elements not asserted.'),
+    'C14': _c('E3', 'model_checking', 'DESIGN.md §3 C14',
+              'stateless exploration of all interleavings of 2-3 real threads up to a preemption bound under an owned scheduler (settrace line/opcode points, semaphore baton), solo-run equality oracle',
+              'All schedules with <=1 preemption (and both starting threads) of 50 operation pairs (every unordered pair of 8 compile operations incl. equal-custom-map aliases and same-pattern pairs; select/match/filter/closest on a shared document; purge) - ~70 000 executions of the real code in quick; thorough adds opcode granularity in the tokenizer, 3 threads, and <=2 preemptions for a core set. Each call must return what it returns alone, raise nothing, and leave a cache whose entries equal fresh parses.',
+              '<=3 threads, <=2 preemptions, line granularity; C-level switches not modelled; cooperative scheduling hides pure data races without observable effect.'),
+    'C15': _c('E2', 'model_checking', 'DESIGN.md §3 C15',
+              'explicit-state BFS over compile/purge/pass-through/fill histories on the real cache deduplicated by an LRU model, every transition checked against a fresh uncached parse; exhaustive value laws over argument tuples',
+              'All histories of depth <=3 (thorough 4) over 17 actions (8 argument tuples differing in flags / namespaces None,{},map,reordered map / custom, purge, pass-through with and without extra arguments, fills of bound-2 and bound entries) on the real lru cache; plus all ordered pairs of ~350 (thorough ~1500) argument tuples for equal<=>arguments equal and equal=>same hash, pickle (all protocols)/copy/deepcopy round trips (equality, hash, part types, repr, selections), and setattr/delattr/new-attribute/map-mutation attempts on every node of every object graph.',
+              'LRU model only merges states; fresh parse = functools __wrapped__.'),
+    'C16': _c('E4', 'model_checking', 'DESIGN.md §3 C16',
+              'exhaustive enumeration of import-statement sequences, each executed in a fresh interpreter, with a fixed differential probe',
+              'All sequences of <=2 (thorough 3) statements over a 13-statement menu (bs4/soupsieve and their submodules, from-imports, star import): 182 (2379) fresh `python -W always` processes with empty cwd; imports must be silent and succeed, BeautifulSoup.select and soupsieve.select must agree, and the 64-entry probe (4 parsers x 16 selectors over comments/CDATA/doctype/forms/lang/dir/SVG) must be identical for all sequences.',
+              'bs4 4.15 as installed; state graph = sets of loaded modules.'),
+    'C17': _c('E1', 'exploration', 'DESIGN.md §3 C17',
+              'exhaustive enumeration of HTML scenario trees x four builders on the real select(), against partition laws and definitional references',
+              'Seven scenario families (disabled: fieldset x child sequences <=2/3 over a 14-item menu; flags; default: <=2/3 controls x 5 layouts incl. twin forms, iframes, nested forms; radio groups: <=2/3 radios x name x checked x 4 placements; placeholder; range; dir incl. iframes) x {API, html.parser, lxml, html5lib}; laws (enabled/disabled, required/optional, read-write/read-only, in/out of range, link = any-link, checked subset default, exactly one direction) and HTML-Standard definitions (:disabled, :default, :indeterminate, :placeholder-shown, ranges) with iframe boundaries.',
+              'typeless <button>, nested forms, unknown input types, hidden inputs are not asserted (listed in the evidence).'),
+    'C18': _c('E1', 'exploration', 'DESIGN.md §3 C18',
+              'exhaustive enumeration of date/time/number strings and (min,max,value) triples on Inputs.parse_value and the public :in-range/:out-of-range, against an independent calendar',
+              'Every year of 1-2400, 9990-10010, 100000-100009 (thorough: a full 400-year period per digit length, 1-10399 and 100000-100399) in 3 spellings x weeks 00-54, months 00-13 x days 00-32, datetime products; all HH:MM; number shapes; whitespace/newline-decorated and cross-type strings; all 343 (min,max,value) triples per type incl. reversed bounds; end-to-end replay of week-53/29-February/boundary strings.',
+              'one open known finding (week 53 over-acceptance, pinned by the repository test-suite) is reported as KNOWN-FINDING; seconds/space separator/exponent treated as invalid.'),
+    'C19': _c('E1', 'exploration', 'DESIGN.md §3 C19',
+              'exhaustive enumeration of child-node words x search strings x text pseudo-class forms on HTML and XML soups, against a text-content reference',
+              'A subject element whose children are every word of length <=3 (thorough 4) over {texts, NBSP, Comment, CData, PI, Declaration, Doctype, span variants with nested words, iframe with content} plus deep layouts (text after an iframe that is a last child several levels down) x 9 search strings x :-soup-contains/:contains/:-soup-contains-own with 1-2 values, two text pseudo-classes in one compound in every order/kind, :empty.',
+              'an iframe element as the subject is not asserted; documents API-built.'),
+    'C20': _c('E1', 'exploration', 'DESIGN.md §3 C20',
+              'exhaustive enumeration of patterns x offsets on get_pattern_context, of all raised SelectorSyntaxErrors over lexeme words (offset captured by wrapping the seam), of DEBUG vs plain compiles, and of pretty() under a step budget',
+              'All patterns of length <=6 (thorough 8) over {a,b,LF,CR} x all offsets; every SelectorSyntaxError over all words of <=3 (4) lexemes incl. LF/CR/CRLF: line, column, context, offset within the pattern, position present; DEBUG changes no result over words <=3; pretty() on ~1200 selectors (all attribute operators/flags, negative An+B, nested lists) finishes within 200*len(repr)+10^4 line events and equals repr up to whitespace.',
+              'offsets between CR and LF skipped; any common prefix width accepted.'),
+})
